@@ -1,6 +1,6 @@
 (* C10 — reserve only ever adds room and never changes contents. *)
 From Coq Require Import ZArith List Bool.
-From Cntgs Require Import Base Layout Mem Vector Spec Rep Refine.
+From Cntgs Require Import Base Layout Mem Vector Spec Rep Refine NeededThm C02Hist.
 Import ListNotations.
 Local Open Scope Z_scope.
 
@@ -20,3 +20,31 @@ Theorem C10_reserve_within_capacity_is_noop : forall L v n b junk bid tbid,
   n <= v_cap v -> reserve L v n b junk bid tbid = (v, []).
 Proof. exact reserve_noop. Qed.
 Print Assumptions C10_reserve_within_capacity_is_noop.
+
+(* the promise: after reserve(n, b) with n > capacity(), n elements / b bytes of varying
+   payload fit.  One step of the history invariant: a growing reserve re-establishes
+   "needed(capacity, budget) <= block" for the new capacity and budget b ... *)
+Theorem C10_reserve_reestablishes_the_budget : forall L, wf_plist L = true -> all_triv L = true ->
+  tail_ok (SA L) true L = true -> forall junk v s B n b, BInv L v s B ->
+  0 <= b -> (s_cap s < n -> tpayload L (s_elems s) <= b) ->
+  BInv L (vstep L junk v (SReserve n b)) (sstep s (SReserve n b)) (if s_cap s <? n then b else B).
+Proof.
+  intros L Hwf Ht Htl junk v s B n b HI Hb Hp.
+  exact (binv_step L Hwf Ht Htl junk v s B (SReserve n b) HI I (conj Hb Hp)).
+Qed.
+Print Assumptions C10_reserve_reestablishes_the_budget.
+
+(* ... and whatever valid history follows (emplace_back up to the new capacity and the new
+   budget included) keeps every element inside the block *)
+Theorem C10_after_reserve_everything_fits : forall L cap budget fixed aid junk bid tbid h,
+  wf_plist L = true -> all_triv L = true -> tail_ok (SA L) true L = true ->
+  0 <= cap -> 0 <= budget -> Forall (fun c => 0 <= c) fixed ->
+  let v0 := fst (mkvec L cap budget fixed aid junk bid tbid) in
+  let s0 := {| s_cap := cap; s_elems := [] |} in
+  shist_valid L (fixed_counts L fixed) s0 h -> bhist_valid L s0 budget h ->
+  let v := vrun L junk v0 h in
+  let l := s_elems (srun s0 h) in
+  exists offs, RepO L v l offs /\
+    Forall2 (fun a t => 0 <= a /\ elem_end L a t <= SA L * v_units v) offs l.
+Proof. exact every_element_inside_block_every_history. Qed.
+Print Assumptions C10_after_reserve_everything_fits.
